@@ -387,7 +387,16 @@ pub fn gen(rng: &mut Rng, n: usize, out: &mut Vec<String>) {
                 out.push(format!("adm.emode {} {} {} {} {} => {}", c.l_init, c.l_maint, mi, mm, line, res(r)));
             }
             _ => {
-                if rng.chance(1, 2) {
+                if rng.chance(1, 3) {
+                    // the decoder of the group's leverage caps (u32 -> 0..100), on its own
+                    let v: u32 = match rng.below(5) {
+                        0 => *rng.pick(&[0u32, 1, u32::MAX, u32::MAX - 1, u32::MAX / 2]),
+                        1 => marginfi_type_crate::types::basis_to_u32(I80F48::from_num(1 + rng.below(99)) + I80F48::from_bits(rng.below(ONE as u64) as i128)),
+                        2 => marginfi_type_crate::types::basis_to_u32(I80F48::from_num(1 + rng.below(99))),
+                        _ => rng.next() as u32,
+                    };
+                    out.push(format!("adm.u32basis {} => {}", v, marginfi_type_crate::types::u32_to_basis(v).to_bits()));
+                } else if rng.chance(1, 2) {
                     let flags: u64 = rng.below(128);
                     let f: u64 = if rng.chance(3, 4) { rng.below(4) } else { rng.below(128) };
                     let mut b = Bank::default();
